@@ -641,7 +641,7 @@ pub fn run_libfunc_lattice(ctx: &mut Ctx) {
 
 /// Debug: prints the universe, or the wrapper + stages of every instantiation of `g` whose text contains `pat`.
 pub fn debug(g: &str, pat: &str) {
-    let tier = Tier::Quick;
+    let tier = if std::env::var("VERIF_TIER").as_deref() == Ok("thorough") { Tier::Thorough } else { Tier::Quick };
     let env = build_env(tier).expect("env");
     if g == "universe" {
         for t in &env.u.order {
